@@ -37,6 +37,12 @@ def _one(args):
     from .smt_stmt import verify_function
 
     t0 = time.time()
+    hit = core.cache_get("smt", f"{qual}/{timeout_ms}")
+    if hit is not None:
+        obs, finfo, st, callees, npaths = hit
+        import copy as _copy
+        obs = _copy.deepcopy(obs)
+        return (_rename(obs, prefix), finfo, st, callees, npaths)
     try:
         obs, finfo, eng = verify_function(qual, prefix, timeout_ms)
     except Exception as e:  # checker bug: undecided, never a violation
@@ -47,7 +53,27 @@ def _one(args):
                          functions=[qual])], None, 0.0, [], 0)
     if finfo is not None:
         finfo.node = None
-    return (obs, finfo, eng.solver_time if eng else 0.0, sorted(eng.callees) if eng else [], eng.n_paths if eng else 0)
+    out = (obs, finfo, eng.solver_time if eng else 0.0, sorted(eng.callees) if eng else [], eng.n_paths if eng else 0)
+    if all(o.status != core.UNDECIDED or "engine" not in o.name for o in obs):
+        core.cache_put("smt", f"{qual}/{timeout_ms}", (_strip(obs, prefix), finfo, out[2], out[3], out[4]))
+    return out
+
+
+def _strip(obs, prefix):
+    import copy as _copy
+
+    out = _copy.deepcopy(obs)
+    for o in out:
+        if o.name.startswith(prefix + "/"):
+            o.name = "@" + o.name[len(prefix):]
+    return out
+
+
+def _rename(obs, prefix):
+    for o in obs:
+        if o.name.startswith("@"):
+            o.name = prefix + o.name[1:]
+    return obs
 
 
 def run_functions(funcs: List[str], prefix: str, tier: str, procs: int = 16) -> core.Result:
